@@ -34,10 +34,21 @@ def gen_spec(rng, depth=None):
         if rng.random() < 0.5:
             tgt = rng.choice([n["name"] for n in nodes])
             nodes.append({"kind": "gate", "name": f"L{lid}gate", "params": [rng.choice(vals)], "targets": [tgt, "END"] if rng.random() < 0.6 else [tgt, nodes[0]["name"]] if nodes[0]["name"] != tgt else [tgt, "END"]})
+        if n_leaf >= 2 and rng.random() < 0.35:
+            # sibling whose name merely extends another node's name (load / load_meta)
+            old_name, new_name = nodes[1]["name"], nodes[0]["name"] + "_meta"
+            for nd in nodes:
+                if nd["kind"] == "gate":
+                    nd["targets"] = [new_name if t == old_name else t for t in nd["targets"]]
+            nodes[1]["name"] = new_name
         child = None
         if d > 0:
             child = level(d - 1, rng.choice(vals[1:] if len(vals) > 1 else vals))
             child["gname"] = f"G{lid}"
+            if rng.random() < 0.6:
+                # a sibling consuming an output of the nested graph; its name may extend the container's name
+                cout = [nd["out"] for nd in child["nodes"] if nd["kind"] == "leaf"][-1]
+                nodes.append({"kind": "leaf", "name": (f"G{lid}_stats" if rng.random() < 0.5 else f"L{lid}post"), "params": [cout], "out": f"v{lid}_post", "emit": None, "wait_for": None})
         return {"nodes": nodes, "child": child, "feed": feed}
 
     return {"family": "viz", "root": level(depth, "x"), "depth": depth, "order_seed": rng.randrange(1000)}
@@ -74,6 +85,11 @@ def structure(spec):
                 if nd["emit"]:
                     here[nd["emit"]] = ids[nd["name"]]
         prods = {**outer_producers, **here}
+        if lv["child"] is not None:
+            cprefix = prefix + lv["child"]["gname"] + "/"
+            for nd in lv["child"]["nodes"]:
+                if nd["kind"] == "leaf":
+                    prods.setdefault(nd["out"], cprefix + nd["name"])
         for nd in lv["nodes"]:
             me = ids[nd["name"]]
             for p in nd["params"]:
